@@ -2,7 +2,7 @@
 
 import random
 from collections import defaultdict
-from collections.abc import Hashable, Iterable
+from collections.abc import Hashable, Iterable, Iterator
 from copy import copy, deepcopy
 from itertools import count
 from warnings import warn
@@ -715,6 +715,8 @@ class Hypergraph:
                 if idx in self._edge.keys():  # check that uid is not present yet
                     warn(f"uid {idx} already exists, cannot add edge {members}.")
                     continue
+                if isinstance(members, Iterator):  # one-shot iterable: read it once
+                    members = list(members)
                 try:
                     member_set = set(members)
                 except TypeError as e:
@@ -740,6 +742,8 @@ class Hypergraph:
             first_edge = next(new_edges)
         except StopIteration:
             return
+        if isinstance(first_edge, Iterator):  # one-shot iterable: read it once
+            first_edge = list(first_edge)
         try:
             first_elem = list(first_edge)[0]
         except (TypeError, IndexError):  # not iterable, or an empty edge
@@ -781,6 +785,8 @@ class Hypergraph:
             if idx in self._edge.keys():  # check that uid is not present yet
                 warn(f"uid {idx} already exists, cannot add edge {members}.")
             else:
+                if isinstance(members, Iterator):  # one-shot iterable: read it once
+                    members = list(members)
                 try:
                     member_set = set(members)
                 except TypeError as e:
